@@ -52,6 +52,14 @@ Definition get_int64 (v : option fjv) : option Z :=
   | _ => Some 0
   end.
 
+(* JSONGetActorEndpoints assigns the fields in the order of its statements; the value is the struct, whose fields
+   the harness renders in declaration order *)
+Definition endpoints_struct_order : list fid :=
+  [F_UploadMedia; F_OauthAuthorizationEndpoint; F_OauthTokenEndpoint; F_ProvideClientKey; F_SignClientKey; F_SharedInbox].
+Definition endpoints_in_struct_order (l : list (fid * item)) : list (fid * item) :=
+  flat_map (fun f => match find (fun p => fid_beq (fst p) f) l with Some p => [p] | None => [] end) endpoints_struct_order
+  ++ filter (fun p => negb (existsb (fid_beq (fst p)) endpoints_struct_order)) l.
+
 (* GetFloat64 on a decimal with at most six fractional digits (the FFloat domain) *)
 Definition get_float_micro (v : option fjv) : option Z :=
   match v with
@@ -400,7 +408,7 @@ Section Dec.
             match jget val term with
             | None => Some None
             | Some sub => match run_leaf (get_value d) (B "JSONGetActorEndpoints") sub with
-                          | Some fs => Some (Some (FEndpoints (Some (flat_map (fun p => match snd p with FItem i => [(fst p, i)] | _ => [] end) fs))))
+                          | Some fs => Some (Some (FEndpoints (Some (endpoints_in_struct_order (flat_map (fun p => match snd p with FItem i => [(fst p, i)] | _ => [] end) fs)))))
                           | None => None
                           end
             end
